@@ -1,6 +1,6 @@
 (* C08 — limb representation: normalisation, shifts and integer encoding are exact.
    This file holds only pinned statements, `exact` proofs and Print Assumptions. *)
-From PV Require Import Base.MachineInt Model.Znx Proofs.ZnxDigit.
+From PV Require Import Base.MachineInt Model.Znx Model.Limbs Proofs.ZnxDigit Proofs.C08Steps Proofs.C08Chain.
 Open Scope Z_scope.
 
 Theorem C08_digit_spec : forall w b x : Z, 1 <= b <= w -> get_digit w b x = wrap b x.
@@ -25,3 +25,128 @@ Theorem C08_carry_wraps_refuted : exists x, in_range 64 x /\
     get_carry 64 2 x (get_digit 64 2 x) * 2 ^ 2 + get_digit 64 2 x <> x.
 Proof. exact carry_wraps_refuted. Qed.
 Print Assumptions C08_carry_wraps_refuted.
+
+(* ---------------- step kernels (any word width w, radix 1 <= b <= w - 2, 0 <= lsh < b) ---------------- *)
+(* `bdiv b v` = (v + 2^(b-1)) / 2^b is the rounded quotient of the balanced division of v by 2^b *)
+
+Theorem C08_balanced_division : forall b v : Z, 1 <= b ->
+  wrap b v + 2 ^ b * bdiv b v = v /\ in_range b (wrap b v).
+Proof. intros b v Hb; split; [apply wrap_bdiv; auto|apply wrap_range; auto]. Qed.
+Print Assumptions C08_balanced_division.
+
+(* closed form of the middle step: no wrap happens, digit and carry are those of the balanced division *)
+Theorem C08_middle_core_ideal : forall w b lsh : Z, 1 <= b <= w - 2 -> 0 <= lsh < b ->
+  forall a c : Z, Z.abs a <= 2 ^ (w - 2) -> Z.abs c <= 2 ^ (w - 2) ->
+  middle_core w b lsh a c = (wrap b (a * 2 ^ lsh + c), bdiv b (a * 2 ^ lsh + c)).
+Proof. exact middle_core_ideal. Qed.
+Print Assumptions C08_middle_core_ideal.
+
+Theorem C08_middle_core_spec : forall w b lsh : Z, 1 <= b <= w - 2 -> 0 <= lsh < b ->
+  forall a c : Z, Z.abs a <= 2 ^ (w - 2) -> Z.abs c <= 2 ^ (w - 2) ->
+  let '(x, c') := middle_core w b lsh a c in
+  a * 2 ^ lsh + c = x + 2 ^ b * c' /\ in_range b x /\
+  Z.abs c' * 2 ^ b <= Z.abs a * 2 ^ lsh + Z.abs c + 2 ^ (b - 1) /\ Z.abs c' <= 2 ^ (w - 2).
+Proof. exact middle_core_spec. Qed.
+Print Assumptions C08_middle_core_spec.
+
+Example C08_middle_core_spec_ex :
+  let '(x, c') := middle_core 64 17 5 (2 ^ 62) (- 2 ^ 62) in
+  2 ^ 62 * 2 ^ 5 + (- 2 ^ 62) = x + 2 ^ 17 * c' /\ in_range 17 x /\
+  Z.abs c' * 2 ^ 17 <= Z.abs (2 ^ 62) * 2 ^ 5 + Z.abs (- 2 ^ 62) + 2 ^ (17 - 1) /\ Z.abs c' <= 2 ^ (64 - 2).
+Proof. apply (C08_middle_core_spec 64 17 5); cbn; lia. Qed.
+
+Theorem C08_middle_step_ideal : forall w b lsh : Z, 1 <= b <= w - 2 -> 0 <= lsh < b ->
+  forall (ov : bool) (x a c : Z), Z.abs a <= 2 ^ (w - 2) -> Z.abs c <= 2 ^ (w - 2) ->
+  (ov = false -> Z.abs x <= 2 ^ (w - 2)) ->
+  middle_step w ov b lsh x a c =
+    ((if ov then 0 else x) + wrap b (a * 2 ^ lsh + c), bdiv b (a * 2 ^ lsh + c)).
+Proof. exact middle_step_ideal. Qed.
+Print Assumptions C08_middle_step_ideal.
+
+Theorem C08_middle_step_sub_ideal : forall w b lsh : Z, 1 <= b <= w - 2 -> 0 <= lsh < b ->
+  forall x a c : Z, Z.abs a <= 2 ^ (w - 2) -> Z.abs c <= 2 ^ (w - 2) -> Z.abs x <= 2 ^ (w - 2) ->
+  middle_step_sub w b lsh x a c = (x - wrap b (a * 2 ^ lsh + c), bdiv b (a * 2 ^ lsh + c)).
+Proof. exact middle_step_sub_ideal. Qed.
+Print Assumptions C08_middle_step_sub_ideal.
+
+Theorem C08_first_step_assign_spec : forall w b lsh : Z, 1 <= b <= w - 2 -> 0 <= lsh < b ->
+  forall a : Z, Z.abs a <= 2 ^ (w - 2) ->
+  let '(x, c') := first_step_assign w b lsh a in
+  a * 2 ^ lsh = x + 2 ^ b * c' /\ in_range b x /\
+  Z.abs c' * 2 ^ b <= Z.abs a * 2 ^ lsh + 2 ^ (b - 1) /\ Z.abs c' <= 2 ^ (w - 2).
+Proof. exact first_step_assign_spec. Qed.
+Print Assumptions C08_first_step_assign_spec.
+
+Example C08_first_step_assign_spec_ex :
+  let '(x, c') := first_step_assign 64 12 11 (- 2 ^ 62) in
+  (- 2 ^ 62) * 2 ^ 11 = x + 2 ^ 12 * c' /\ in_range 12 x /\
+  Z.abs c' * 2 ^ 12 <= Z.abs (- 2 ^ 62) * 2 ^ 11 + 2 ^ (12 - 1) /\ Z.abs c' <= 2 ^ (64 - 2).
+Proof. apply (C08_first_step_assign_spec 64 12 11); cbn; lia. Qed.
+
+Theorem C08_first_step_spec : forall w b lsh : Z, 1 <= b <= w - 2 -> 0 <= lsh < b ->
+  forall (ov : bool) (x a : Z), Z.abs a <= 2 ^ (w - 2) -> (ov = false -> Z.abs x <= 2 ^ (w - 2)) ->
+  let '(x', c') := first_step w ov b lsh x a in
+  exists d, x' = (if ov then 0 else x) + d /\
+  a * 2 ^ lsh = d + 2 ^ b * c' /\ in_range b d /\
+  Z.abs c' * 2 ^ b <= Z.abs a * 2 ^ lsh + 2 ^ (b - 1) /\ Z.abs c' <= 2 ^ (w - 2).
+Proof. exact first_step_spec. Qed.
+Print Assumptions C08_first_step_spec.
+
+Theorem C08_first_step_carry_only_spec : forall w b lsh : Z, 1 <= b <= w - 2 -> 0 <= lsh < b ->
+  forall a : Z, Z.abs a <= 2 ^ (w - 2) ->
+  first_step_carry_only w b lsh a = snd (first_step_assign w b lsh a).
+Proof. exact first_step_carry_only_spec. Qed.
+Print Assumptions C08_first_step_carry_only_spec.
+
+(* the first step is a middle step with carry 0; the final step is the digit of a middle step *)
+Theorem C08_first_is_middle : forall w b lsh : Z, 1 <= b <= w - 2 -> 0 <= lsh < b ->
+  forall a : Z, Z.abs a <= 2 ^ (w - 2) -> first_step_assign w b lsh a = middle_core w b lsh a 0.
+Proof. exact first_is_middle. Qed.
+Print Assumptions C08_first_is_middle.
+
+Theorem C08_final_core_spec : forall w b lsh : Z, 1 <= b <= w - 2 -> 0 <= lsh < b ->
+  forall a c : Z, Z.abs a <= 2 ^ (w - 2) -> Z.abs c <= 2 ^ (w - 2) ->
+  let x := final_core w b lsh a c in
+  (a * 2 ^ lsh + c - x) mod 2 ^ b = 0 /\ in_range b x.
+Proof. exact final_core_spec. Qed.
+Print Assumptions C08_final_core_spec.
+
+Example C08_final_core_spec_ex :
+  let x := final_core 64 62 61 (2 ^ 62 - 1) (2 ^ 62) in
+  ((2 ^ 62 - 1) * 2 ^ 61 + 2 ^ 62 - x) mod 2 ^ 62 = 0 /\ in_range 62 x.
+Proof. apply (C08_final_core_spec 64 62 61); cbn; lia. Qed.
+
+Theorem C08_final_is_middle : forall w b lsh : Z, 1 <= b <= w - 2 -> 0 <= lsh < b ->
+  forall a c : Z, Z.abs a <= 2 ^ (w - 2) -> Z.abs c <= 2 ^ (w - 2) ->
+  final_core w b lsh a c = fst (middle_core w b lsh a c).
+Proof. exact final_is_middle. Qed.
+Print Assumptions C08_final_is_middle.
+
+Theorem C08_extract_digit_addmul_spec : forall w b lsh r s : Z, 1 <= b <= w - 2 -> 0 <= lsh ->
+  Z.abs s <= 2 ^ (w - 2) -> in_range w (r + wrap b s * 2 ^ lsh) -> in_range w (wrap b s * 2 ^ lsh) ->
+  let '(r', s') := extract_digit_addmul w b lsh r s in
+  exists d, in_range b d /\ s = d + 2 ^ b * s' /\ r' = r + d * 2 ^ lsh /\
+            Z.abs s' * 2 ^ b <= Z.abs s + 2 ^ (b - 1).
+Proof. exact extract_digit_addmul_spec. Qed.
+Print Assumptions C08_extract_digit_addmul_spec.
+
+Theorem C08_normalize_digit_spec : forall w b r s : Z, 1 <= b <= w - 2 ->
+  Z.abs r <= 2 ^ (w - 2) -> in_range w (s + bdiv b r) ->
+  let '(r', s') := normalize_digit w b r s in
+  in_range b r' /\ r + 2 ^ b * s = r' + 2 ^ b * s' /\ s' = s + bdiv b r.
+Proof. exact normalize_digit_spec. Qed.
+Print Assumptions C08_normalize_digit_spec.
+
+(* carries stay within the headroom along any chain of steps: `car b v c0 j` is the carry after j steps
+   over the (already shifted) inputs v 0, v 1, ... starting from c0 *)
+Theorem C08_carry_chain_headroom : forall b : Z, 1 <= b -> forall (H : Z) (v : nat -> Z) (c0 : Z) (j : nat),
+  0 <= H -> (forall t, (t < j)%nat -> Z.abs (v t) <= H * 2 ^ (b - 1)) -> Z.abs c0 <= H ->
+  Z.abs (car b v c0 j) <= H.
+Proof. exact car_bound. Qed.
+Print Assumptions C08_carry_chain_headroom.
+
+(* a carry within 2^62 propagated through zero limbs is stationary after 64 steps *)
+Theorem C08_gap_saturates : forall b : Z, 1 <= b -> forall (c : Z) (g : nat), Z.abs c <= 2 ^ 62 ->
+  car b zseq c (Nat.min g 64) = car b zseq c g.
+Proof. exact car_zseq_sat. Qed.
+Print Assumptions C08_gap_saturates.
